@@ -495,6 +495,9 @@ pub fn run(args: &Args) {
         let out = run_impl(&grammar, &orig, &mut batches, &mut |k, cur| if k < nb { Some(gen_valid_batch(&mut r2, cur)) } else { None });
         emit(&mut sink, &orig, &batches, &out, false);
     }
+    if args.thorough() {
+        exhaustive(&mut sink, &grammar, &mut rng);
+    }
     // malformed stream
     let n = args.n(250, 4000);
     for _ in 0..n {
@@ -576,4 +579,59 @@ fn limits(sink: &mut Sink, verbose: bool) {
         );
         sink.tag("limit_commit");
     }
+}
+
+/// thorough tier: every original of <= 3 characters over one character per UTF-8 width x every batch of <= 2 ordered,
+/// non-overlapping edits with replacements from {"", "x", "あ", "xé"}; every fourth case is followed by a random batch
+fn exhaustive(sink: &mut Sink, grammar: &Grammar, rng: &mut Rng) {
+    let chars = ['a', 'é', 'あ', '😀'];
+    let repl = ["", "x", "あ", "xé"];
+    let mut originals = vec![String::new()];
+    let mut frontier = vec![String::new()];
+    for _ in 0..3 {
+        let mut next = vec![];
+        for s in &frontier {
+            for c in chars {
+                let mut x = s.clone();
+                x.push(c);
+                next.push(x);
+            }
+        }
+        originals.extend(next.iter().cloned());
+        frontier = next;
+    }
+    let mut count = 0u64;
+    for orig in &originals {
+        let b = boundaries(orig);
+        let mut ranges = vec![];
+        for i in 0..b.len() {
+            for j in i..b.len() {
+                ranges.push((b[i], b[j]));
+            }
+        }
+        let mut batches: Vec<Vec<EditSpec>> = vec![];
+        for r1 in &ranges {
+            for w1 in repl {
+                let e1 = EditSpec { s: r1.0, e: r1.1, w: w1.to_string(), kind: 0 };
+                batches.push(vec![e1.clone()]);
+                for r2 in &ranges {
+                    if r2.0 < r1.1 {
+                        continue;
+                    }
+                    for w2 in repl {
+                        batches.push(vec![e1.clone(), EditSpec { s: r2.0, e: r2.1, w: w2.to_string(), kind: 1 }]);
+                    }
+                }
+            }
+        }
+        for first in batches {
+            count += 1;
+            let follow = count % 4 == 0;
+            let mut bs = vec![first];
+            let mut r2 = rng.fork();
+            let out = run_impl(grammar, orig, &mut bs, &mut |k, cur| if follow && k == 1 { Some(gen_valid_batch(&mut r2, cur)) } else { None });
+            emit(sink, orig, &bs, &out, false);
+        }
+    }
+    sink.tag_n("exhaustive_small_scope", count);
 }
